@@ -5,6 +5,8 @@ package interp
 
 import (
 	"go/types"
+
+	"golang.org/x/tools/go/ssa"
 	"path/filepath"
 	"sort"
 	"strings"
@@ -141,6 +143,9 @@ func init() {
 		},
 		vrt + "OnFS": func(fr *frame, a []value) value {
 			fr.i.world.FS().monitor = a[1]
+			if f, ok := a[1].(*ssa.Function); ok && f == nil {
+				fr.i.world.FS().monitor = nil
+			}
 			return nil
 		},
 		vrt + "FSMutations": func(fr *frame, a []value) value { return fr.i.world.FS().mutations },
